@@ -105,7 +105,14 @@ def tree_hash(extra=b""):
 
 
 def ensure_msa():
-    if not os.path.exists(MSA):
+    if os.path.exists(MSA):
+        return
+    # several checks may start at once on a fresh copy: build under a lock, and look again once we hold it
+    import fcntl
+    with open(os.path.join(VERIF, "tool", ".build.lock"), "w") as lk:
+        fcntl.flock(lk, fcntl.LOCK_EX)
+        if os.path.exists(MSA):
+            return
         r = subprocess.run(["make", "-C", os.path.join(VERIF, "tool"), "-j%d" % JOBS], capture_output=True, text=True)
         if r.returncode != 0 or not os.path.exists(MSA):
             raise AnalysisBroken("tool/bin/msa is not built and `make -C tool` failed:\n" + r.stdout[-2000:] + r.stderr[-2000:])
